@@ -294,8 +294,8 @@ func execProgram(p sProgram, prefix []int, inject func(l1, l2 *tierStore, res []
 	go func() { s.Run(); close(done) }()
 	select {
 	case <-done:
-	case <-time.After(20 * time.Second):
-		run.Violation = "harness: scheduler run did not finish within 20s"
+	case <-time.After(120 * time.Second):
+		run.Violation = "harness: scheduler run did not finish within 120s"
 		return run
 	}
 	run.Trace, run.Switches = s.trace, s.switches
